@@ -42,6 +42,18 @@ CHECKS = {
         note="Trusted: Coq kernel + vm_compute; harness; xarray sortby/where/cumsum/argmax modelled by documented behaviour "
              "and compared on every case; distinct time stamps. Print Assumptions: closed under the global context.",
         technique="Coq proof (induction, sorted-permutation uniqueness) + exhaustive small-scope correspondence"),
+    "C19": dict(
+        cat="proof",
+        text="Theorems (Props/C19.v) about a literal Gallina model of IterativeAggregation._iteragg (label lookup on a "
+             "strictly increasing axis, begin_ix/end_ix with the ValueError, the descending loop with its break and "
+             "completeness test, attrs, slices): the yielded windows are exactly, newest first, those of n steps whose last "
+             "step runs from begin down to max(end, n-1) for every axis length, n >= 1, begin and end; an unlocatable label "
+             "raises. Tied to /repo by comparing the whole generator sequence (attrs, stamp, values) exhaustively for axis "
+             "lengths 1..7 (12 thorough) x n x begin x end, plus off-axis labels x lookup methods.",
+        ref="7 (C19)",
+        note="Trusted: Coq kernel + vm_compute; harness; pandas Index.get_indexer modelled (exact/pad/backfill/nearest) and "
+             "compared on every case; NaN-skipping reductions on small integers. Print Assumptions: closed under the global context.",
+        technique="Coq proof (loop invariant by induction on fuel, sorted-axis lookup lemmas) + exhaustive small-scope correspondence"),
 }
 
 PENDING = "no check has been built for this property yet (work in progress; see DESIGN.md section 7 for the plan)"
